@@ -21,6 +21,12 @@ LOOKALIKE = ["Table 1", "Table 2", "table 2", "TABLE 3", "Table 4", "Sheet 1", "
              "Caf\u00e9", "Cafe\u0301", "\u00c5", "\u212b", "A\u030a"]
 
 
+# (a, b): the first four are equal when lower-cased (a duplicate), the others only look alike (both must be accepted)
+CASE_PAIRS = [("\u0130stanbul", "i\u0307stanbul"), ("\u0130", "i\u0307"), ("STRA\u00dfE", "stra\u00dfe"),
+              ("\u03a3\u038a\u03a3\u03a5\u03a6\u039f\u03a3", "\u03c3\u03af\u03c3\u03c5\u03c6\u03bf\u03c2"),
+              ("Stra\u00dfe", "STRASSE"), ("\ufb01n", "FIN"), ("\u01f0", "J\u030c"), ("\u1e9e", "ss")]
+
+
 def gen(seed: int, tier: str, idx=None):
     rng0 = substream(seed, "swarm")
     cfg = {"property": PROPERTY, "aspects": ["grid", "names"], "profile": "names", "_mix": {"s": 1, "i": 1}, "_long": False}
@@ -32,6 +38,23 @@ def gen(seed: int, tier: str, idx=None):
         g.emit({"op": "new_doc", "rows": rng0.randint(1, 4), "cols": rng0.randint(1, 4),
                 "sheet": rng0.choice(["Sheet 1", "Sheet 1", "sheet 2", "S"]), "table": rng0.choice(["Table 1", "Table 1", "table 2", "Table 3", "T"])})
     steps = rng0.randint(5, 30 if tier == "thorough" else 22)
+    if substream(seed, "casepairs").random() < 0.2:
+        # two names that are (or are just not) equal ignoring case in an unusual way: lower-casing changes the length, the
+        # case-folded form differs from the lower-cased one, final sigma, ligatures - added or renamed into one collection
+        r2 = substream(seed, "casepairs2")
+        a_, b_ = r2.choice(CASE_PAIRS)
+        if r2.random() < 0.5:
+            a_, b_ = b_, a_
+        if r2.random() < 0.6:
+            g.emit({"op": "add_table", "d": 0, "s": 0, "rows": 1, "cols": 1, "hr": 0, "hc": 0, "name": a_})
+            if r2.random() < 0.3:
+                g.emit({"op": "add_table", "d": 0, "s": 0, "rows": 1, "cols": 1, "hr": 0, "hc": 0})
+                g.emit({"op": "rename_table", "d": 0, "s": 0, "t": 1, "name": a_})
+            g.emit({"op": "add_table", "d": 0, "s": 0, "rows": 1, "cols": 1, "hr": 0, "hc": 0, "name": b_})
+        else:
+            g.emit({"op": "add_sheet", "d": 0, "rows": 1, "cols": 1, "name": a_})
+            g.emit({"op": "add_sheet", "d": 0, "rows": 1, "cols": 1, "name": b_})
+        g.emit({"op": "lookup", "d": 0, "s": 0})
     if rng0.random() < 0.12:
         # a crowded collection: automatic names must stay fresh past 'Table 9' / 'Sheet 9' (two-digit numbers)
         cfg["max_items"] = 14
